@@ -89,3 +89,9 @@ Definition ex_release : release :=
      r_metadata := None; r_raw_manifest := None |}.
 Example ex_release_ok : release_valid ex_release = true /\ exists m, release_git_object ex_release = MOk m.
 Proof. split; [reflexivity | eexists; reflexivity]. Qed.
+
+(* ---- dimension added by the audit: a verbatim raw manifest takes precedence for the id,
+   whatever its bytes (the empty byte string included), even without a target ---- *)
+Theorem rel_raw_manifest_precedence : forall (H : bytes -> bytes) r m,
+  r_raw_manifest r = Some m -> rel_compute_hash H r = Some (H m).
+Proof. intros H r m R. unfold rel_compute_hash. rewrite R. reflexivity. Qed.
